@@ -32,7 +32,8 @@ MUTANTS = [
     ("C01", C, "            self._compute_frame(frame, coeffs[frame_idx])\n            self._first_frame = False", "            self._compute_frame(frame, coeffs[frame_idx])\n            self._first_frame = frame_idx > 3", "K", "first-frame flag"),
     ("C01", C, "        self._x_rem = max(0, num_raw - num_dfts * valid_samples_per_dft)", "        self._x_rem = max(0, num_raw - num_dfts * valid_samples_per_dft - (1 if chunk_len == 5 else 0))", "K", "SI x_rem"),
     ("C02", C, "half_len - 2 + self._dft_size % 2,\n                        )", "half_len - 2 + half_len % 2,\n                        )", "K", "revert fix D3"),
-    ("C02", C, "coeffs[0] = np.inner(frame, frame) / self._frame_length", "coeffs[0] = np.inner(frame * self._window, frame) / self._frame_length", "K", "energy from windowed frame"),
+    ("C02", C, "energy = np.inner(frame64, frame64) / self._frame_length", "energy = np.inner(frame64 * self._window, frame64) / self._frame_length", "K", "energy from windowed frame"),
+    ("C02", C, "frame64 = frame.astype(np.float64, copy=False)", "frame64 = frame", "K", "revert fix D35 (energy in the signal's type)"),
     ("C02", C, "num_frames = max(0, (len(signal) + frame_shift // 2) // frame_shift)", "num_frames = max(0, (len(signal) + (frame_shift - 1) // 2) // frame_shift)", "K", "frame count rounding"),
     ("C02", C, "                if start_idx == 0 and trunc_len:\n                    val -= self._nonlin_op(half_spect[:1] * truncated_filt[:1])\n", "", "K", "partial revert of fix D30 (0 Hz bin)"),
     ("C14", T, "            if mod == 0 and ni >= 0 and ni < filt_len:", "            if mod == 1 and ni >= 0 and ni < filt_len:", "K", "fix D30 on odd sizes only (torch)"),
